@@ -41,6 +41,7 @@ type refEnt struct {
 	trusted bool
 	tainted bool // was marked invalid after it had been written: no further claims about this hash
 	flushed bool // the real store's write queue was seen empty since this block was added
+	readded bool // BlockAdd was called for this hash again after it was (last) marked invalid on disk
 	spec    BlockSpec
 }
 
@@ -168,11 +169,22 @@ func (x *runner) runHistory(h *History, count bool) (fails []failure) {
 			fails = append(fails, failure{kind, key, what})
 		}
 	}
+	reached := map[string]bool{}
 	hit := func(k string) {
+		reached[k] = true
 		if count {
 			r.Hit(k)
 		}
 	}
+	// a corpus history names the branches it exists for: not reaching one of them (a skipped poke / stash, a changed
+	// layout) is reported instead of silently lowering a counter
+	defer func() {
+		for _, k := range h.Expect {
+			if !reached[k] {
+				fail("tie", "corpus-expectation-not-reached", fmt.Sprintf("history %q no longer reaches %q", h.Name, k))
+			}
+		}
+	}()
 	dir, err := os.MkdirTemp("", "vc16")
 	if err != nil {
 		fmt.Fprintln(os.Stderr, "mkdirtemp:", err)
@@ -202,6 +214,7 @@ func (x *runner) runHistory(h *History, count bool) (fails []failure) {
 	removedQ := map[[32]byte]bool{}
 	removedQ2 := map[[32]byte]bool{} // hashes stored again after they had been forgotten that way
 	poked := false                   // a `poke` operation damaged a file: no property claims afterwards, tie only
+	stashed := map[uint64]int64{}    // (value: the file's size)  // data files a `stash` operation moved into oldat/ and that were not seen back in the main directory yet
 	allAdds := map[[32]byte][]int{} // every block number ever handed to BlockAdd under a hash
 	var db *chain.BlockDB
 	var cur Opts
@@ -380,6 +393,7 @@ func (x *runner) runHistory(h *History, count bool) (fails []failure) {
 			// somebody else overwrites bytes of a file while the store is closed (a legacy record, damaged data): applied
 			// to the real directory and to the model's file system alike; no property claim is made afterwards
 			if db != nil {
+				fail("tie", "corpus-op-skipped", where+": poke on an open store is skipped")
 				continue
 			}
 			raw, err := hex.DecodeString(op.Hex)
@@ -391,6 +405,7 @@ func (x *runner) runHistory(h *History, count bool) (fails []failure) {
 			}
 			f, e2 := os.OpenFile(fn, os.O_RDWR, 0)
 			if err != nil || e2 != nil {
+				fail("tie", "corpus-op-skipped", fmt.Sprintf("%s: poke skipped: %v %v", where, err, e2))
 				continue
 			}
 			f.WriteAt(raw, op.Pos)
@@ -404,6 +419,33 @@ func (x *runner) runHistory(h *History, count bool) (fails []failure) {
 				e.tainted = true
 			}
 			hit("op:poke")
+			continue
+		}
+		if op.Op == "stash" {
+			// somebody moves data file number B from the main directory into oldat/ while the store is closed (what
+			// removeDatFile does with DataFilesBackup, here applied to any file — e.g. the CURRENT one, which the store itself
+			// never moves): the real directory and the model's file system alike. No taint: every stored block must still come
+			// back — LoadBlockIndex has to bring the current file back from oldat/ instead of creating an empty one over it
+			// (repair ab43e6b0), BlockGet falls back to oldat/ for the others.
+			fn := fmt.Sprintf("bl%08d.dat", op.B)
+			_, e2 := os.Stat(filepath.Join(dir, "oldat", fn))
+			fi, e1 := os.Stat(filepath.Join(dir, fn))
+			if db != nil || e1 != nil || e2 == nil {
+				fail("tie", "corpus-op-skipped", fmt.Sprintf("%s: stash skipped (store open: %v, main: %v, oldat present: %v)", where, db != nil, e1, e2 == nil))
+				continue
+			}
+			os.MkdirAll(filepath.Join(dir, "oldat"), 0770)
+			if e := os.Rename(filepath.Join(dir, fn), filepath.Join(dir, "oldat", fn)); e != nil {
+				fail("tie", "corpus-op-skipped", fmt.Sprintf("%s: stash: %v", where, e))
+				continue
+			}
+			if rep := x.o.MustAsk(fmt.Sprintf("stash %d", op.B)); rep != "ok" {
+				fail("tie", "oracle-rejects-op", where+": the model does not cover this stash: "+rep)
+				return
+			}
+			prevMain, prevOld = listDir(dir), listDir(filepath.Join(dir, "oldat"))
+			stashed[uint64(op.B)] = fi.Size()
+			hit("op:stash")
 			continue
 		}
 		if db == nil && op.Op != "reopen" {
@@ -461,6 +503,10 @@ func (x *runner) runHistory(h *History, count bool) (fails []failure) {
 					fail("prop", "reopen-lists-unknown-block", fmt.Sprintf("%s: LoadBlockIndex lists %x which was never added", where, w.hash[:8]))
 					continue
 				}
+				if e.tainted && !e.readded {
+					fail("prop", "reopen-lists-invalid-block", fmt.Sprintf("%s: LoadBlockIndex lists %x, which was marked invalid after it had been written and was not handed to BlockAdd again since", where, w.hash[:8]))
+					continue
+				}
 				if listed[w.hash] > 1 && !e.tainted {
 					fail("prop", "reopen-lists-twice", fmt.Sprintf("%s: %x listed twice", where, w.hash[:8]))
 				}
@@ -481,6 +527,28 @@ func (x *runner) runHistory(h *History, count bool) (fails []failure) {
 			for hh, e := range ref {
 				if !e.tainted && listed[hh] == 0 {
 					fail("prop", "reopen-lost-block", fmt.Sprintf("%s: stored block %x (height %d) is not listed after the restart", where, hh[:8], e.spec.Height))
+				}
+				if e.tainted && !e.readded && !poked && !panicked {
+					hit("reopen:invalidated-block-not-listed")
+				}
+			}
+			// a data file that was moved into oldat/ while the store was closed (`stash`): if it is the file LoadBlockIndex
+			// appends to, it must be back in the main directory with its bytes — not an empty file created over it
+			for idx, size := range stashed {
+				fn := fmt.Sprintf("bl%08d.dat", idx)
+				fm, em := os.Stat(filepath.Join(dir, fn))
+				_, eo := os.Stat(filepath.Join(dir, "oldat", fn))
+				switch {
+				case panicked:
+				case em == nil && eo == nil:
+					fail("prop", "backup-shadowed-by-new-file", fmt.Sprintf("%s: LoadBlockIndex created data file %d in the main directory while the file with the stored blocks sits in oldat/", where, idx))
+				case em == nil && fm.Size() < size:
+					fail("prop", "current-data-file-replaced", fmt.Sprintf("%s: data file %d (%d bytes, moved into oldat/ while the store was closed) is a %d-byte file in the main directory after LoadBlockIndex and gone from oldat/", where, idx, size, fm.Size()))
+				case em == nil:
+					hit("reopen:restored-from-oldat")
+					delete(stashed, idx)
+				default:
+					hit("reopen:stashed-stays-in-oldat")
 				}
 			}
 		case "add":
@@ -505,8 +573,13 @@ func (x *runner) runHistory(h *History, count bool) (fails []failure) {
 			if e := ref[hs]; e == nil {
 				ref[hs] = &refEnt{data: datas[op.B], trusted: op.Flag, spec: h.Blocks[op.B]}
 				delete(removedQ, hs)
-			} else if op.Flag {
-				e.trusted = true
+			} else {
+				if op.Flag {
+					e.trusted = true
+				}
+				if e.tainted {
+					e.readded = true
+				}
 			}
 		case "get":
 			line = "get " + hx
@@ -558,9 +631,15 @@ func (x *runner) runHistory(h *History, count bool) (fails []failure) {
 			} else {
 				real = fmt.Sprintf("len %d", l)
 			}
-			if re := ref[hs]; re != nil && !re.tainted && !panicked && op.Flag {
+			if re := ref[hs]; re != nil && !re.tainted && !panicked {
+				// every record this code writes carries the uncompressed size (BLOCK_LENGTH), so the answer does not depend on
+				// decode_if_needed; an error is allowed only when the block's data file left the retention
 				if e == nil && int(l) != len(re.data) {
-					fail("prop", "blocklength-wrong", fmt.Sprintf("%s: BlockLength(%x, decode_if_needed) = %d, stored block has %d bytes", where, hs[:8], l, len(re.data)))
+					fail("prop", "blocklength-wrong", fmt.Sprintf("%s: BlockLength(%x, decode_if_needed=%v) = %d, stored block has %d bytes", where, hs[:8], op.Flag, l, len(re.data)))
+				} else if e != nil && !outOfRetention(op.B) {
+					fail("prop", "blocklength-stored-fails", fmt.Sprintf("%s: BlockLength(%x, decode_if_needed=%v) of a stored block fails: %v", where, hs[:8], op.Flag, e))
+				} else if e == nil {
+					hit("len:ok:decode=" + b01(op.Flag))
 				}
 			}
 		case "trusted":
@@ -580,6 +659,7 @@ func (x *runner) runHistory(h *History, count bool) (fails []failure) {
 			if e := ref[hs]; e != nil && !panicked {
 				if e.flushed {
 					e.tainted = true
+					e.readded = false
 				} else {
 					delete(ref, hs)
 					removedQ[hs] = true
